@@ -147,8 +147,8 @@ Definition TIpc (s : shared) (p : pc) : Prop :=
   | ACas cv ck nx => cv <> tail c /\ ck <= hk s /\ aba2 s cv ck nx
   | AMark cv ck => ck <= hk s /\ getz (sver s) cv <= ck
   | AMintMark v => getz (sver s) v <= 0
-  | FStore v cv ck => getz (sver s) v <= hk s + 1
-  | FCas v cv ck => getz (sver s) v <= hk s + 1 /\ getz (nxt s) v = cv
+  | FStore v cv ck => ck <= hk s /\ getz (sver s) v <= hk s + 1
+  | FCas v cv ck => ck <= hk s /\ getz (sver s) v <= hk s + 1 /\ getz (nxt s) v = cv
   | ESlot v k => getz (sver s) v <= k /\ k <= hk s /\ getz (nxt s) v = ACT
   end.
 Definition TI (s : shared) (th : thread) : Prop :=
@@ -439,7 +439,7 @@ Proof.
     + intros x kx Hi. destruct (B _ _ Hi). split; auto. rewrite getz_setz_other; auto; try lia.
       * destruct (excl_thread s ths t th x (g_cnt _ _ G) Hn (proj1 (owned_in _ _) (taken_owned _ _ _ Hi))). lia.
       * intro; subst. apply in_map_fst in Hi. apply cnt_in in Hi. lia.
-    + split; auto. apply getz_setz_same.
+    + destruct P. repeat split; auto. apply getz_setz_same.
 Qed.
 
 Lemma fcas_fail_good : forall s ths t th v cv ck, Good s ths -> nth_error ths t = Some th -> tpc th = FCas v cv ck ->
@@ -448,7 +448,7 @@ Proof.
   intros s ths t th v cv ck G Hn Hpc. pose proof (g_thr _ _ G _ _ Hn) as HT. pose proof HT as (A & B & P).
   rewrite Hpc in P. simpl in P. apply (good_local s ths t th); auto.
   - intros w. unfold ocnt, owned_thread. simpl. now rewrite Hpc.
-  - apply TI_goto_same; auto. simpl. tauto.
+  - apply TI_goto_same; auto. simpl. split; [lia|tauto].
 Qed.
 
 Lemma mint_good : forall s ths t th, Good s ths -> nth_error ths t = Some th -> tpc th = AMint ->
@@ -512,7 +512,7 @@ Lemma fcas_ok_good : forall s ths t th v cv ck, Good s ths -> nv s <= ACT -> nth
 Proof.
   intros s ths t th v cv ck G Hnv Hn Hpc Ehv Ehk. rewrite wrapk_id. unfold push_new_version. subst cv ck.
   pose proof G as G0. destruct G0.
-  destruct (g_thr0 _ _ Hn) as (A & B & P). rewrite Hpc in P. simpl in P. destruct P as (P1 & P2).
+  destruct (g_thr0 _ _ Hn) as (A & B & P). rewrite Hpc in P. simpl in P. destruct P as (P0 & P1 & P2).
   assert (Hv : In v (owned_thread th)). { apply pc_owned_in. rewrite Hpc. now left. }
   destruct (excl_thread s ths t th v g_cnt0 Hn (proj1 (owned_in _ _) Hv)) as (Rv & Nfl & Nb & O1 & Oth).
   refine (good_intro s ths t th _ _ G Hn _ _ _ _ _ _ _ _ _ _ _ _); simpl.
@@ -881,18 +881,15 @@ Lemma step_eq : forall c s t th s1 th1, nth_error (threads s) t = Some th -> tst
   step_or_stay st (step c) s t = {| sh := s1; threads := set_nth t th1 (threads s) |}.
 Proof. intros c s t th s1 th1 Hn Hs. unfold step_or_stay, step. now rewrite Hn, Hs. Qed.
 
-Theorem id_reuse_when_quiet : forall c progs s t th x rest r, vmod c = 0 -> Reach c progs s -> nv (sh s) <= ACTc c ->
+Lemma reuse_core : forall c s t th x rest r,
+  hv (sh s) = x -> (x =? tail c) = false ->
   nth_error (threads s) t = Some th -> tpc th = Idle -> prog th = OAlloc :: r -> fl (sh s) = x :: rest ->
   let s' := run st (step c) s [t; t; t; t] in
   nv (sh s') = nv (sh s) /\ fl (sh s') = rest /\
   exists th', nth_error (threads s') t = Some th' /\ tpc th' = Idle /\ prog th' = r /\
               held th' = (x, hk (sh s)) :: held th /\ results th' = RId x (hk (sh s)) :: results th.
 Proof.
-  intros c progs s t th x rest r Hvm HR Hnv Hn Hpc Hp Hfl. pose proof (id_good c progs s Hvm HR Hnv) as G.
-  assert (Ehv : hv (sh s) = x). { pose proof (g_chain _ _ _ G) as Hc. rewrite Hfl in Hc. simpl in Hc. tauto. }
-  assert (Hx : (x =? tail c) = false).
-  { apply Z.eqb_neq. pose proof (fl_range c _ _ G x). rewrite Hfl in H. specialize (H (or_introl eq_refl)).
-    pose proof (ACT_lt_tail c). unfold ACTc in *. lia. }
+  intros c s t th x rest r Ehv Hx Hn Hpc Hp Hfl.
   set (k0 := hk (sh s)). set (nx := getz (nxt (sh s)) x).
   set (s1 := {| sh := sh s; threads := set_nth t (goto th (ALoadNext x k0)) (threads s) |}).
   set (s2 := {| sh := sh s; threads := set_nth t (goto th (ACas x k0 nx)) (threads s) |}).
@@ -920,6 +917,21 @@ Proof.
     - unfold tstep. simpl. unfold finish_alloc, pop_mark_index. simpl. rewrite Hp. reflexivity. }
   cbn [run]. rewrite E1, E2, E3, E4. simpl. rewrite Hfl. simpl. split; [reflexivity|]. split; [reflexivity|].
   eexists. split; [eapply nth_error_set_nth_same; eauto|]. simpl. rewrite Hp. repeat split.
+Qed.
+
+Theorem id_reuse_when_quiet : forall c progs s t th x rest r, vmod c = 0 -> Reach c progs s -> nv (sh s) <= ACTc c ->
+  nth_error (threads s) t = Some th -> tpc th = Idle -> prog th = OAlloc :: r -> fl (sh s) = x :: rest ->
+  let s' := run st (step c) s [t; t; t; t] in
+  nv (sh s') = nv (sh s) /\ fl (sh s') = rest /\
+  exists th', nth_error (threads s') t = Some th' /\ tpc th' = Idle /\ prog th' = r /\
+              held th' = (x, hk (sh s)) :: held th /\ results th' = RId x (hk (sh s)) :: results th.
+Proof.
+  intros c progs s t th x rest r Hvm HR Hnv Hn Hpc Hp Hfl. pose proof (id_good c progs s Hvm HR Hnv) as G.
+  assert (Ehv : hv (sh s) = x). { pose proof (g_chain _ _ _ G) as Hc. rewrite Hfl in Hc. simpl in Hc. tauto. }
+  assert (Hx : (x =? tail c) = false).
+  { apply Z.eqb_neq. pose proof (fl_range c _ _ G x). rewrite Hfl in H. specialize (H (or_introl eq_refl)).
+    pose proof (ACT_lt_tail c). unfold ACTc in *. lia. }
+  eapply reuse_core; eauto.
 Qed.
 
 (* ---------------------------------------------------------------- the real 16-bit version: ABA after 2^16 pushes *)
